@@ -74,12 +74,50 @@ REQUESTS: dict[str, dict] = {
     "f32_above": {"dtype": "float32", "x": (262136,), "consts": [(262136,)]},      # 1048544 bytes
     "tiny_other_graph": {"dtype": "float32", "x": (4,), "consts": [(4,)], "other": True},
 }
+# programs with control-flow bodies (ONNX Loop / Scan subgraphs, handled by the IR post-pass) and
+# double-precision requests: the modes must agree on those too
+REQUESTS.update({
+    "fori": {"dtype": "float32", "x": (3, 4), "consts": [], "custom": "fori"},
+    "scan": {"dtype": "float32", "x": (5, 4), "consts": [], "custom": "scan"},
+    "while": {"dtype": "float32", "x": (3, 4), "consts": [], "custom": "while"},
+    "fori_f64": {"dtype": "float32", "x": (3, 4), "consts": [], "custom": "fori", "f64": True},
+    "plain_f64": {"dtype": "float32", "x": (3, 4), "consts": [], "custom": "plain", "f64": True},
+})
 for _r in REQUESTS.values():
     _r["sizes"] = [int(np.prod(c)) * np.dtype(_r["dtype"]).itemsize for c in _r["consts"]]
 
 
+def build_custom(req: dict, seed: int):
+    import jax
+    import jax.numpy as jnp
+    rs = np.random.RandomState(seed)
+    w = (rs.randint(-8, 9, size=(4, 4)) / 8).astype(np.float32)
+    kind = req["custom"]
+    if kind == "plain":
+        def fn(x):
+            return jnp.tanh(x @ w) + 1.0
+    elif kind == "fori":
+        def fn(x):
+            return jax.lax.fori_loop(0, 3, lambda i, c: jnp.tanh(c @ w) + 0.5, x)
+    elif kind == "while":
+        def fn(x):
+            return jax.lax.while_loop(lambda c: jnp.sum(c[1]) < 4.0,
+                                      lambda c: (jnp.tanh(c[0] @ w) + 0.5, c[1] + 1.0), (x, jnp.zeros((1,), x.dtype)))[0]
+    else:
+        def fn(x):
+            def step(carry, row):
+                carry = carry * 0.5 + row
+                return carry, jnp.sum(carry)
+            final, ys = jax.lax.scan(step, jnp.zeros((4,), x.dtype), x)
+            return final, ys
+    x = (rs.randint(-8, 9, size=req["x"]) / 8).astype(np.float64 if req.get("f64") else np.float32)
+    return fn, x, []
+
+
 def build_fn(req: dict, seed: int):
     import jax.numpy as jnp
+    if req.get("custom"):
+        return build_custom(req, seed)
     dt = np.dtype(req["dtype"])
     rs = np.random.RandomState(seed)
     consts = []
@@ -121,25 +159,53 @@ class Requests:
         from jax2onnx import to_onnx
         req = REQUESTS[name]
         fn, x, consts = build_fn(req, seed)
-        proto = to_onnx(fn, [x], return_mode="proto", model_name="m")
-        irm = to_onnx(fn, [x], return_mode="ir", model_name="m")
+        kw = {"enable_double_precision": True} if req.get("f64") else {}
+        proto = to_onnx(fn, [x], return_mode="proto", model_name="m", **kw)
+        irm = to_onnx(fn, [x], return_mode="ir", model_name="m", **kw)
         self.conversions += 2
         ir_proto = ir.to_proto(irm)
         same = proto.SerializeToString(deterministic=True) == ir_proto.SerializeToString(deterministic=True)
         if not same:
             self.chk.finding({"kind": "proto_ne_ir", "request": name},
-                             f"return_mode='proto' and to_proto(return_mode='ir') differ for request {name}",
-                             {"request": name, "seed": seed})
+                             f"return_mode='proto' and to_proto(return_mode='ir') differ for request {name}: "
+                             f"{describe_proto_diff(proto, ir_proto)}",
+                             {"request": name, "seed": seed, "history": {"steps": [{"req": name, "mode": "web",
+                              "seed": seed}], "side0": None, "relative": False},
+                              "how": "harness/props/c15.py::replay (converts the request in proto and ir mode)"})
         rq = [[i.name, bool(i.HasField("raw_data")), len(i.raw_data) if i.HasField("raw_data") else
                len(i.SerializeToString())] for i in proto.graph.initializer]
         got_sizes = sorted(r[2] for r in rq)
-        if sorted(req["sizes"]) != got_sizes:
+        if not req.get("custom") and sorted(req["sizes"]) != got_sizes:
             # the converter merged/split the constants: the request no longer exercises what it should
             raise RuntimeError(f"request {name}: expected initializers of {req['sizes']} bytes, export has {rq}")
-        d = {"fn": fn, "x": x, "proto": proto, "req": rq, "ort": None,
+        d = {"fn": fn, "x": x, "kw": kw, "proto": proto, "req": rq, "ort": None,
              "digests": [sha(i.raw_data) for i in proto.graph.initializer]}
         self.cache[key] = d
         return d
+
+
+def describe_proto_diff(a: Any, b: Any) -> str:
+    """where two ModelProtos differ (subgraph value_info first: that is what the IR post-pass rewrites)"""
+    import onnx
+
+    def body_infos(m):
+        out = {}
+        for n in m.graph.node:
+            for at in n.attribute:
+                if at.type == onnx.AttributeProto.GRAPH:
+                    for vi in at.g.value_info:
+                        out[f"{n.op_type}/{vi.name}"] = [
+                            (dd.dim_value if dd.HasField("dim_value") else (dd.dim_param or None))
+                            for dd in vi.type.tensor_type.shape.dim]
+        return out
+
+    ia, ib = body_infos(a), body_infos(b)
+    diffs = [f"{k}: proto={ia.get(k)} ir={ib.get(k)}" for k in sorted(set(ia) | set(ib)) if ia.get(k) != ib.get(k)]
+    if diffs:
+        return "; ".join(diffs[:4])
+    ta = [(i.name, i.data_type) for i in a.graph.initializer]
+    tb = [(i.name, i.data_type) for i in b.graph.initializer]
+    return f"initializer dtypes proto={ta[:4]} ir={tb[:4]}" if ta != tb else "difference outside subgraph value_info"
 
 
 def ort_run(model: Any, x: np.ndarray) -> list[np.ndarray]:
@@ -192,7 +258,7 @@ def show(obs: dict, ok: bool) -> str:
 STEP_KINDS = [("small", "standard"), ("below", "standard"), ("at", "standard"), ("big", "standard"),
               ("two_big", "standard"), ("mixed", "standard"), ("f32_below", "standard"), ("f32_above", "standard"),
               ("big", "web"), ("small", "web"), ("two_big", "web"), ("tiny_other_graph", "standard"),
-              ("tiny_other_graph", "web")]
+              ("tiny_other_graph", "web"), ("fori", "standard"), ("scan", "standard"), ("fori_f64", "standard")]
 
 
 def gen_histories(rng: common.Rng, thorough: bool) -> list[dict]:
@@ -203,6 +269,8 @@ def gen_histories(rng: common.Rng, thorough: bool) -> list[dict]:
         [("at", "standard"), ("below", "standard"), ("at", "standard")],
         [("two_big", "standard"), ("big", "web"), ("two_big", "standard"), ("tiny_other_graph", "standard")],
         [("f32_above", "standard"), ("f32_below", "standard"), ("mixed", "standard"), ("small", "web")],
+        # control-flow bodies and double precision: proto == to_proto(ir) == file for those too
+        [("fori", "standard"), ("scan", "web"), ("while", "standard"), ("fori_f64", "web"), ("plain_f64", "standard")],
     ]
     for k, f in enumerate(fixed):
         hs.append({"steps": [{"req": r, "mode": m, "seed": (k * 7 + i) % 3} for i, (r, m) in enumerate(f)],
@@ -262,7 +330,7 @@ def run_history(chk: Check, reqs: Requests, h: dict, stats: dict) -> tuple[str, 
             ok, err = True, None
             try:
                 ret = to_onnx(r["fn"], [r["x"]], return_mode="file", output_path=out_path,
-                              export_mode=st["mode"], model_name="m")
+                              export_mode=st["mode"], model_name="m", **r["kw"])
                 reqs.conversions += 1
             except Exception as e:
                 ok, err = False, f"{type(e).__name__}: {str(e)[:100]}"
@@ -324,7 +392,8 @@ def run_history(chk: Check, reqs: Requests, h: dict, stats: dict) -> tuple[str, 
             # ---- oracle: ORT on the file == ORT on the proto == JAX
             if r["ort"] is None:
                 r["ort"] = ort_run(r["proto"].SerializeToString(), r["x"])
-                jx = np.asarray(r["fn"](r["x"]))
+                jx = r["fn"](r["x"])
+                jx = np.asarray(jx[0] if isinstance(jx, (tuple, list)) else jx)
                 if not np.allclose(np.asarray(r["ort"][0]).astype(np.float64), jx.astype(np.float64),
                                    rtol=1e-5, atol=1e-5):
                     chk.finding({"kind": "proto_ne_jax", "request": st["req"]},
